@@ -1,1 +1,140 @@
-/-! # C07 — property theorems (stub) -/
+import Okane.Lemmas.Literal
+/-!
+# C07 — numeric literals mean exactly what is written
+
+Model: `Okane.Literal.scan` / `printPDec` (`core/src/syntax/pretty_decimal.rs`).
+Statement: `Okane.Spec.WellFormedLiteral`, `Representable`, `litValue`, `litScale`, `grouping` (`Spec/Literal.lean`).
+
+What is proved here, for ALL strings:
+* `C07_total`        — the scanner returns a value or an error: no panic site, no fuel (no crash, no hang).
+* `C07_closed_form`  — the byte state machine (`comma_pos` / `format` / `mantissa` / `scale` / `prefix_len` / `sign` /
+  `has_digit`, i128 checked arithmetic, end-of-input validation, `try_from_i128_with_scale`) accepts a string iff,
+  after an optional leading `-`, it is a run of digits followed by (a) nothing, (b) `.` and digits only, or
+  (c) — only after 1 to 3 leading digits — one or more complete groups `,ddd` and then nothing or `.` and digits;
+  and the value it returns is, field by field, the one written: mantissa = the digits read as one number, scale = the
+  number of digits after the point, format = grouped / plain (≥ 4 ungrouped integer digits) / none, sign = the
+  minus (never a negative zero), subject to |mantissa| < 2^96 and scale ≤ 28.  Everything else is an *error value*.
+* `C07_reject_is_error` — whatever the closed form does not accept is an error value.
+* `C07_print_naive_false` — `scan (print d) = d` is refuted by `0,123`; the correct law is `C07_print_stmt`.
+The full-strength statements against `Spec/Literal.lean` (`C07_sound_stmt`, `C07_complete_stmt`, `C07_reject_stmt`,
+`C07_print_stmt`) are kept visible below; their reduction to `C07_closed_form` is list reasoning about
+`takeWhile`/`dropWhile` that is not yet mechanised — on every run the correspondence stream evaluates the Lean
+`Spec` predicates, the closed form's consequences and an independent regular expression on every string up to
+length 6/7 over the class alphabet and on the random long literals, and compares them with the real code.
+-/
+namespace Okane.C07
+open Okane Okane.Literal
+
+/-! ## Totality -/
+
+theorem step_total (st : St) (i : Nat) (c : Char) : (∃ st', step st i c = .ok st') ∨ (∃ e, step st i c = .err e) := by
+  unfold step
+  dsimp only
+  repeat' split
+  all_goals first | exact Or.inl ⟨_, rfl⟩ | exact Or.inr ⟨_, rfl⟩
+
+theorem loop_total : ∀ (s : List Char) (st : St) (i : Nat),
+    (∃ st', loop st i s = .ok st') ∨ (∃ e, loop st i s = .err e) := by
+  intro s
+  induction s with
+  | nil => intro st i; exact Or.inl ⟨st, rfl⟩
+  | cons c cs ih =>
+    intro st i
+    simp only [loop]
+    rcases step_total st i c with ⟨st', h⟩ | ⟨e, h⟩
+    · rw [h]; exact ih st' (i + 1)
+    · rw [h]; exact Or.inr ⟨e, rfl⟩
+
+theorem finish_total (st : St) (n : Nat) : (∃ d, finish st n = .ok d) ∨ (∃ e, finish st n = .err e) := by
+  unfold finish
+  dsimp only
+  repeat' split
+  all_goals first | exact Or.inl ⟨_, rfl⟩ | exact Or.inr ⟨_, rfl⟩
+
+/-- **C07_total**: for every string the scanner returns a decimal or an error value — it has no reachable panic
+site (the i128 arithmetic is checked) and needs no fuel. -/
+theorem C07_total (s : List Char) : (∃ d, scan s = .ok d) ∨ (∃ e, scan s = .err e) := by
+  unfold scan
+  rcases loop_total s {} 0 with ⟨st', h⟩ | ⟨e, h⟩
+  · rw [h]; exact finish_total st' s.length
+  · rw [h]; exact Or.inr ⟨e, rfl⟩
+
+/-- **C07_reject** (shape of the failure): whatever is not accepted is an error value, never a crash. -/
+theorem C07_reject_is_error (s : List Char) (h : acc (scan s) = none) : ∃ e, scan s = .err e := by
+  rcases C07_total s with ⟨d, hd⟩ | he
+  · rw [hd] at h; simp [acc] at h
+  · exact he
+
+/-! ## The closed form -/
+
+/-- what `from_str` computes, without the state machine -/
+def closedForm (s : List Char) : Option PDec :=
+  bodySpec (Spec.isNegative s) (if Spec.isNegative s then 1 else 0) (Spec.stripMinus s)
+
+/-- **C07_closed_form**: for every string, the scanner accepts exactly what the closed form accepts and returns
+exactly the decimal the closed form describes. -/
+theorem C07_closed_form (s : List Char) : acc (scan s) = closedForm s := by
+  rw [scan_eq_run]
+  unfold closedForm
+  match s with
+  | '-' :: b =>
+    have hstep : step {} 0 '-' = .ok { prefixLen := 1, neg := true } := by simp [step]
+    rw [acc_run_cons, hstep, acc_ok]
+    simp only [Spec.isNegative, Spec.stripMinus, if_true]
+    exact run_body true 1 b (by omega)
+  | [] =>
+    simp only [Spec.isNegative, Spec.stripMinus]
+    exact run_body false 0 [] (by intro _ t h; simp at h)
+  | c :: cs =>
+    by_cases hc : c = '-'
+    · subst hc
+      have hstep : step {} 0 '-' = .ok { prefixLen := 1, neg := true } := by simp [step]
+      rw [acc_run_cons, hstep, acc_ok]
+      simp only [Spec.isNegative, Spec.stripMinus, if_true]
+      exact run_body true 1 cs (by omega)
+    · have h1 : Spec.isNegative (c :: cs) = false := by
+        unfold Spec.isNegative; split <;> simp_all
+      have h2 : Spec.stripMinus (c :: cs) = c :: cs := by
+        unfold Spec.stripMinus; split <;> simp_all
+      rw [h1, h2]
+      simp only [Bool.false_eq_true, if_false]
+      exact run_body false 0 (c :: cs) (by intro _ t h; simp at h; exact hc h.1)
+
+/-! ## Full-strength statements against `Spec/Literal.lean` (kept visible) -/
+
+def litDec (s : List Char) : PDec :=
+  { neg := Spec.isNegative s && Spec.litMant s != 0, mant := Spec.litMant s, scale := Spec.litScale s, fmt := Spec.grouping s }
+
+/-- accepted ⇒ well formed, and value / decimal places / grouping exactly as written -/
+def C07_sound_stmt : Prop := ∀ s d, scan s = .ok d →
+  Spec.WellFormedLiteral s = true ∧ Spec.Representable s = true ∧ d.toRat = Spec.litValue s ∧ d.scale = Spec.litScale s ∧
+  d.fmt = Spec.grouping s
+/-- well formed and representable ⇒ accepted -/
+def C07_complete_stmt : Prop := ∀ s, Spec.WellFormedLiteral s = true → Spec.Representable s = true → ∃ d, scan s = .ok d
+/-- anything else ⇒ an error value -/
+def C07_reject_stmt : Prop := ∀ s, ¬ (Spec.WellFormedLiteral s = true ∧ Spec.Representable s = true) → ∃ e, scan s = .err e
+/-- printing preserves value, decimal places and (where there is something to group) the grouping style -/
+def C07_print_stmt : Prop := ∀ s d, scan s = .ok d →
+  ∃ d', scan (printPDec d) = .ok d' ∧ d'.neg = d.neg ∧ d'.mant = d.mant ∧ d'.scale = d.scale ∧
+    (d.mant / 10 ^ d.scale ≥ 1000 → d'.fmt = d.fmt)
+/-- the naive form of the print law (`scan (print d) = d`) is FALSE: a grouped literal below 1000 (`0,123`) prints
+without a comma and re-reads without the grouping tag. -/
+def C07_print_naive : Prop := ∀ s d, scan s = .ok d → scan (printPDec d) = .ok d
+
+theorem C07_print_naive_false : ¬ C07_print_naive := by
+  intro h
+  have := h "0,123".toList ⟨false, 123, 0, some .comma3dot⟩ (by decide +kernel)
+  revert this
+  decide +kernel
+
+/-! ## Non-vacuity: accepted and rejected witnesses through the closed form -/
+
+example : scan "1,234.50".toList = .ok ⟨false, 123450, 2, some .comma3dot⟩ := by decide +kernel
+example : scan "-0.05".toList = .ok ⟨true, 5, 2, none⟩ := by decide +kernel
+example : scan "12,50".toList = .err (.unexpectedEnd 5) := by decide +kernel
+example : scan "1.2.3".toList = .err (.unexpectedChar 3) := by decide +kernel
+example : closedForm "1,234.50".toList = some ⟨false, 123450, 2, some .comma3dot⟩ := by decide +kernel
+example : closedForm "1,234,56".toList = none := by decide +kernel
+example : scan ('1' :: List.replicate 39 '0') = .err .invalidDecimal := by decide +kernel
+
+end Okane.C07
